@@ -66,6 +66,9 @@ def check(repo, tier="quick"):
     rule_raises(repo, res, sf, reach, exc)
     rule_reporting(repo, res, reach, exc)
     rule_level_dict(repo, res, sf, exc)
+    from .. import intlimit
+
+    intlimit.rule(repo, res, "C02.6")
 
     res.floor("C02.A1", 6)
     res.floor("C02.1", 60)
